@@ -1,8 +1,9 @@
 ------------------------------- MODULE Bits -------------------------------
 (* Byte / word arithmetic shared by all modules. Plain integer arithmetic    *)
 (* (div/mod) is used instead of the Bitwise community module wherever the    *)
-(* operand is a single bit or a field, because TLC evaluates it much faster. *)
-EXTENDS Naturals, Integers, Sequences
+(* operand is a single bit or a field, because TLC evaluates it much faster;   *)
+(* whole-byte AND/OR/XOR use the community module's Java implementation.      *)
+EXTENDS Naturals, Integers, Sequences, Bitwise
 
 Byte == 0..255
 Word == 0..65535
@@ -21,12 +22,12 @@ RECURSIVE AndN(_, _, _), OrN(_, _, _), XorN(_, _, _)
 AndN(a, b, n) == IF n = 0 THEN 0 ELSE 2 * AndN(a \div 2, b \div 2, n - 1) + ((a % 2) * (b % 2))
 OrN(a, b, n)  == IF n = 0 THEN 0 ELSE 2 * OrN(a \div 2, b \div 2, n - 1) + (IF (a % 2) + (b % 2) > 0 THEN 1 ELSE 0)
 XorN(a, b, n) == IF n = 0 THEN 0 ELSE 2 * XorN(a \div 2, b \div 2, n - 1) + (((a % 2) + (b % 2)) % 2)
-And8(a, b) == AndN(a, b, 8)
-Or8(a, b)  == OrN(a, b, 8)
-Xor8(a, b) == XorN(a, b, 8)
-And16(a, b) == AndN(a, b, 16)
-Or16(a, b)  == OrN(a, b, 16)
-Xor16(a, b) == XorN(a, b, 16)
+And8(a, b) == a & b
+Or8(a, b)  == a | b
+Xor8(a, b) == a ^^ b
+And16(a, b) == a & b
+Or16(a, b)  == a | b
+Xor16(a, b) == a ^^ b
 
 \* even parity of a byte: 1 when the number of set bits is even
 Parity(b) == 1 - ((Bit(b,0) + Bit(b,1) + Bit(b,2) + Bit(b,3) + Bit(b,4) + Bit(b,5) + Bit(b,6) + Bit(b,7)) % 2)
